@@ -1,8 +1,10 @@
 /-
   Model of xmlschema/namespaces.py (class NamespaceMapper): the prefix <-> URI maps, the stack
-  of xmlns contexts and the name mapping functions, plus the call pattern with which the
-  validators drive it while decoding a tree (validators/elements.py:643-645, 817 and
-  validators/groups.py:1008-1009).
+  of xmlns contexts and the name mapping functions, plus the call patterns with which it is driven:
+  by the validators while decoding a tree (validators/elements.py:643-645, 833 and
+  validators/groups.py:1008-1009, `visit` / `decodeT`) and by the converters' `element_encode`
+  while encoding decoded data (converters/base.py:452-482, `encVisit`).
+  Line numbers refer to the tree as it is now (after fix b20c29d).
 
   No Mathlib import: this file is linked into the native driver `drv_c17`.
 
@@ -69,9 +71,10 @@ inductive Mode where
   deriving Repr, DecidableEq
 
 /-- Which repointing rule the stacked branch uses when a prefix is rebound:
-    `pinned`   = namespaces.py:227-235 as it is in the tree under check,
-    `repaired` = the same loop where a replacement prefix must not itself be rebound by the
-                 element (notes/fixes/C17-stale-reverse-double-rebind.patch). -/
+    `repaired` = namespaces.py:235-244 AS IT IS NOW (fix b20c29d): a replacement prefix must not itself
+                 be rebound by the element;
+    `pinned`   = the loop of be27a66 as it was before that fix (kept for the witness of C17-F2 and so
+                 that the harness recognises a tree that regressed). -/
 inductive Variant where
   | pinned | repaired
   deriving Repr, DecidableEq
@@ -82,7 +85,7 @@ structure Mapper where
   stack : List Ctx := []        -- head = top of `_xmlns_contexts`
   deriving Repr, DecidableEq
 
-/-- `{v: k and k + ':' for k, v in reversed(self.namespaces.items())}` (namespaces.py:104):
+/-- `{v: k and k + ':' for k, v in reversed(self.namespaces.items())}` (namespaces.py:97):
     later assignments win, so every URI records the *first* prefix bound to it. -/
 def mkReverse (ns : Map) : Map :=
   ns.reverse.foldl (fun r kv => r.set kv.2 kv.1) []
@@ -93,7 +96,7 @@ def digitVal (c : Char) : Nat := c.toNat - '0'.toNat
 
 def digitsToNat (l : List Char) : Nat := l.foldl (fun n c => 10 * n + digitVal c) 0
 
-/-- namespaces.py:262-267 / utils/qnames.py:189-194:
+/-- namespaces.py:271-276 / utils/qnames.py:189-194:
     `re.search(r'(\d+)$', prefix)` → increment the trailing number, else append '0'
     (ASCII digits; the generator only produces ASCII prefixes). -/
 def nextPrefix (p : String) : String :=
@@ -116,7 +119,7 @@ def findSlot (ns : Map) (uri : String) : Nat → String → Slot
     | none => .fresh p
     | some u => if u = uri then .bound p else findSlot ns uri fuel (nextPrefix p)
 
-/-- One declaration of the collapsed merge (namespaces.py:244-272); with `rev` ignored it is one
+/-- One declaration of the collapsed merge (namespaces.py:254-280); with `rev` ignored it is one
     iteration of `update_namespaces` (utils/qnames.py:172-196, `root_declarations` = `root`). -/
 def collapseOne (root : Bool) (st : Map × Map × Bool) (d : String × String) : Map × Map × Bool :=
   let (ns, rev, ok) := st
@@ -148,13 +151,13 @@ def updateNamespaces (ns : Map) (xmlns : Xmlns) (root : Bool) : Map × Bool :=
 /-! ### the stacked branch -/
 
 /-- prefixes that the element binds to a URI different from their current one
-    (`{p for p, u in xmlns if self.namespaces.get(p, u) != u}` in the repaired code). -/
+    (`{p for p, u in xmlns if self.namespaces.get(p, u) != u}`, namespaces.py:235). -/
 def rebound (ns : Map) (xmlns : Xmlns) : List String :=
   (xmlns.filter fun d => match ns.get d.1 with
     | some old => old ≠ d.2
     | none => false).map (·.1)
 
-/-- One iteration of the loop namespaces.py:227-235: when `prefix` currently is the recorded
+/-- One iteration of the loop namespaces.py:236-244: when `prefix` currently is the recorded
     prefix of another URI, drop that record and repoint it to the last other prefix of that URI. -/
 def repointOne (v : Variant) (ns : Map) (rb : List String) (rev : Map) (d : String × String) : Map :=
   match ns.get d.1 with
@@ -173,14 +176,14 @@ def repointOne (v : Variant) (ns : Map) (rb : List String) (rev : Map) (d : Stri
 def repoint (v : Variant) (ns : Map) (rev : Map) (xmlns : Xmlns) : Map :=
   xmlns.foldl (repointOne v ns (rebound ns xmlns)) rev
 
-/-- namespaces.py:237-241. -/
+/-- namespaces.py:245-250. -/
 def revUpdate (level : Nat) (rev : Map) (xmlns : Xmlns) : Map :=
   if level ≠ 0 then xmlns.foldl (fun r d => r.set d.2 d.1) rev
   else xmlns.reverse.foldl (fun r d => if r.has d.2 then r else r.set d.2 d.1) rev
 
 /-! ### set_xmlns_context -/
 
-/-- The loop namespaces.py:199-208.  Result: remaining stack, the maps of the last popped
+/-- The loop namespaces.py:204-213.  Result: remaining stack, the maps of the last popped
     context (if any), the xmlns of an already existing context for `(obj, level)`. -/
 def popLoop (obj level : Nat) : List Ctx → Option (Map × Map) → List Ctx × Option (Map × Map) × Option Xmlns
   | [], r => ([], r, none)
@@ -195,7 +198,7 @@ structure SetResult where
   fuelOk : Bool := true
   deriving Repr
 
-/-- `set_xmlns_context(obj, level)` (namespaces.py:185-273); `decl` is what `_xmlns_getter(obj)`
+/-- `set_xmlns_context(obj, level)` (namespaces.py:193-281); `decl` is what `_xmlns_getter(obj)`
     returns ([] for None / an empty list). -/
 def setContext (v : Variant) (mode : Mode) (m : Mapper) (obj level : Nat) (decl : Xmlns) : SetResult :=
   let (stack, restored, found) := popLoop obj level m.stack none
@@ -222,13 +225,14 @@ def setContext (v : Variant) (mode : Mode) (m : Mapper) (obj level : Nat) (decl 
       { m := { ns := ns2, rev := rev2, stack }, ret := none, fuelOk := ok }
     else { m := m1, ret := none }
 
-/-- `__setitem__` (namespaces.py:110-112). -/
-def setItem (m : Mapper) (pfx uri : String) : Mapper :=
+/-- `__setitem__` as it was before fix b20c29d (`namespaces[p] = u; _reverse[u] = p`): kept for the
+    witness of C17-F5. -/
+def setItemPre (m : Mapper) (pfx uri : String) : Mapper :=
   { m with ns := m.ns.set pfx uri, rev := m.rev.set uri pfx }
 
-/-- `__setitem__` as repaired by notes/fixes/C17-stale-reverse-double-rebind.patch: when the prefix was
-    the recorded prefix of another URI, that record is repointed to the last prefix still bound to it. -/
-def setItemRepaired (m : Mapper) (pfx uri : String) : Mapper :=
+/-- `__setitem__` (namespaces.py:104-114) AS IT IS NOW: when the prefix was the recorded prefix of another
+    URI, that record is repointed to the last prefix still bound to it. -/
+def setItem (m : Mapper) (pfx uri : String) : Mapper :=
   let ns1 := m.ns.set pfx uri
   let rev1 := match m.ns.get pfx with
     | some old =>
@@ -241,7 +245,7 @@ def setItemRepaired (m : Mapper) (pfx uri : String) : Mapper :=
     | none => m.rev
   { m with ns := ns1, rev := rev1.set uri pfx }
 
-/-- `__delitem__` (namespaces.py:114-121); `none` = KeyError. -/
+/-- `__delitem__` (namespaces.py:116-123); `none` = KeyError. -/
 def delItem (m : Mapper) (pfx : String) : Option Mapper :=
   match m.ns.get pfx with
   | none => none
@@ -271,7 +275,7 @@ inductive PName where
   | braced (u l : String)            -- `{uri}local`
   deriving Repr, DecidableEq
 
-/-- `map_qname` with namespaces in use (namespaces.py:275-300). -/
+/-- `map_qname` with namespaces in use (namespaces.py:283-308). -/
 def mapQName (m : Mapper) (q : QN) : PName :=
   if q.ns = "" then .loc q.loc                      -- qname[0] != '{'
   else if m.ns.isEmpty then .braced q.ns q.loc       -- `not self.namespaces`
@@ -286,7 +290,7 @@ inductive Unmapped where
   | unknownPrefix (p l : String)
   deriving Repr, DecidableEq
 
-/-- `unmap_qname(qname, name_table, xmlns)` with namespaces in use (namespaces.py:302-358).
+/-- `unmap_qname(qname, name_table, xmlns)` with namespaces in use (namespaces.py:310-362).
     `inTable` = "a name_table was given and contains the name". -/
 def unmapQName (ns0 : Map) (xmlns : Xmlns) (inTable : Bool) (n : PName) : Unmapped :=
   let ns := if xmlns.isEmpty then ns0 else Map.update ns0 xmlns
@@ -304,6 +308,58 @@ def unmapQName (ns0 : Map) (xmlns : Xmlns) (inTable : Bool) (n : PName) : Unmapp
       | some d => if d = "" then .name ⟨"", l⟩
                   else if inTable then .name ⟨"", l⟩ else .name ⟨d, l⟩
 
+/-! ### name mapping switches and attribute keys -/
+
+/-- `process_namespaces` / `strip_namespaces` (namespaces.py:79-80, 95: `_use_namespaces`). -/
+structure NameCfg where
+  process : Bool := true
+  strip : Bool := false
+  deriving Repr, DecidableEq
+
+def NameCfg.useNs (c : NameCfg) : Bool := c.process && !c.strip
+
+/-- `map_qname` (namespaces.py:291-292 then 294-308): without namespaces in use the name is returned
+    unchanged (`{uri}local` stays in extended form) or reduced to its local part. -/
+def mapQNameCfg (c : NameCfg) (m : Mapper) (q : QN) : PName :=
+  if c.useNs then mapQName m q
+  else if c.strip then .loc q.loc
+  else if q.ns = "" then .loc q.loc else .braced q.ns q.loc
+
+/-- `unmap_qname` (namespaces.py:327-328 then 330-362); `local_name` of utils/qnames.py:74-93. -/
+def unmapQNameCfg (c : NameCfg) (ns0 : Map) (xmlns : Xmlns) (inTable : Bool) (n : PName) : Unmapped :=
+  if c.useNs then unmapQName ns0 xmlns inTable n
+  else if c.strip then
+    match n with
+    | .loc l => .name ⟨"", l⟩
+    | .pre _ l => .name ⟨"", l⟩
+    | .braced _ l => .name ⟨"", l⟩
+  else
+    match n with
+    | .loc l => .name ⟨"", l⟩
+    | .pre p l => .unknownPrefix p l
+    | .braced u l => .name ⟨u, l⟩
+
+/-- How `map_attributes` (converters/base.py:233-245) writes the key of an attribute:
+    `current`  = `map_qname(name)` as in the tree under check (an attribute whose namespace has the empty
+                 prefix recorded becomes a bare local name: finding C17-F7);
+    `repaired` = notes/fixes/C17-attribute-default-prefix.patch: a bare result for a namespaced attribute is
+                 replaced by the last non-empty prefix bound to the namespace, else the extended name is kept. -/
+inductive AttrRule where
+  | current | repaired
+  deriving Repr, DecidableEq
+
+def mapAttr (r : AttrRule) (m : Mapper) (q : QN) : PName :=
+  match r with
+  | .current => mapQName m q
+  | .repaired =>
+    match mapQName m q with
+    | .loc l =>
+      if q.ns = "" then .loc l
+      else match m.ns.lastKey (fun k u => k ≠ "" && u = q.ns) with
+        | some p => .pre p l
+        | none => .braced q.ns l
+    | n => n
+
 /-! ### the validators' call pattern while decoding a document -/
 
 /-- An element: identifier, expanded tag, attribute names, its own xmlns declarations, children. -/
@@ -313,7 +369,7 @@ inductive Tree where
 
 /-- What the decoder emits for one element: the key under which it is stored (mapped in the
     context set by groups.py:1008-1009, or elements.py:645 for the root), the attribute keys
-    (mapped after elements.py:817 purged the sub-contexts) and the maps in force at both points. -/
+    (mapped after elements.py:833 purged the sub-contexts) and the maps in force at both points. -/
 structure Obs where
   id : Nat
   level : Nat
@@ -321,6 +377,7 @@ structure Obs where
   key : PName
   nsAtKey : Map
   attrs : List (QN × PName)
+  attrsR : List (QN × PName)      -- the attribute keys under the repaired rule (`AttrRule.repaired`)
   nsAtAttrs : Map
   ret : Option Xmlns             -- xmlns handed to the converter for this element
   revAtKey : Map
@@ -330,7 +387,7 @@ structure Obs where
 
 mutual
 /-- groups.py:1008-1009 `set_xmlns_context(child, level); name = map_qname(child.tag)` (for the root:
-    elements.py:645), then the children one level deeper, then elements.py:817. -/
+    elements.py:645), then the children one level deeper, then elements.py:833. -/
 def visit (v : Variant) (mode : Mode) (level : Nat) : Tree → Mapper → Mapper × List Obs
   | .node id tag attrs decl children, m =>
     let r1 := setContext v mode m id level decl
@@ -338,7 +395,8 @@ def visit (v : Variant) (mode : Mode) (level : Nat) : Tree → Mapper → Mapper
     let (m2, obs) := visitList v mode (level + 1) children r1.m
     let r3 := setContext v mode m2 id level decl
     let o : Obs := { id, level, tag, key, nsAtKey := r1.m.ns,
-                     attrs := attrs.map fun a => (a, mapQName r3.m a), nsAtAttrs := r3.m.ns,
+                     attrs := attrs.map fun a => (a, mapQName r3.m a),
+                     attrsR := attrs.map fun a => (a, mapAttr .repaired r3.m a), nsAtAttrs := r3.m.ns,
                      ret := r3.ret, revAtKey := r1.m.rev, revAtAttrs := r3.m.rev,
                      fuelOk := r1.fuelOk && r3.fuelOk }
     (r3.m, o :: obs)
@@ -367,5 +425,104 @@ def decodeDoc (v : Variant) (mode : Mode) (user : Map) (t : Tree) : Mapper × Li
     let (m0, ok) := initMapper mode user decl
     let (m, obs) := visit v mode 0 t m0
     (m, obs, ok)
+
+/-! ### decoded data as a tree, and the encoders' call pattern -/
+
+/-- One element of decoded data as the converters that report namespace declarations build it
+    (converters/base.py:336-419, badgerfish.py, jsonml.py, gdata.py): the key under which it is stored, whether
+    it is a mapping (list for JsonML) at all, the xmlns entries it reports, its attribute keys, its children. -/
+inductive Item where
+  | node (id : Nat) (key : PName) (isMap : Bool) (xmlns : Xmlns) (attrs : List PName) (children : List Item)
+  deriving Repr
+
+def Item.id : Item → Nat | .node i _ _ _ _ _ => i
+def Item.key : Item → PName | .node _ k _ _ _ _ => k
+def Item.xmlns : Item → Xmlns | .node _ _ _ x _ _ => x
+
+/-- `get_effective_xmlns` (converters/base.py:307-320): at level 0 the whole namespace map is reported (the
+    root of a document is a global element), below it the xmlns returned by the purge call. -/
+def reported (level : Nat) (r : SetResult) : Xmlns :=
+  if level = 0 then r.m.ns else r.ret.getD []
+
+/-- `keep_result_dict` (converters/base.py:353-375) for the default and unordered converters (`prune = true`):
+    an element without attributes and children keeps its dictionary — and with it the reported xmlns — only
+    when one of the reported declarations binds the namespace of its own tag; otherwise the item is its text
+    (not a mapping).  BadgerFish, GData and JsonML keep every item (`prune = false`). -/
+def keptItem (prune : Bool) (tag : QN) (xm : Xmlns) (attrs : List PName) (children : List Item) : Bool :=
+  !prune || !attrs.isEmpty || !children.isEmpty || xm.any (fun d => d.2 = tag.ns)
+
+mutual
+/-- `visit`, building the data tree instead of the list of observations. -/
+def decodeT (v : Variant) (a : AttrRule) (prune : Bool) (mode : Mode) (level : Nat) : Tree → Mapper → Mapper × Item
+  | .node id tag attrs decl children, m =>
+    let r1 := setContext v mode m id level decl
+    let key := mapQName r1.m tag
+    let (m2, items) := decodeTList v a prune mode (level + 1) children r1.m
+    let r3 := setContext v mode m2 id level decl
+    let xm := reported level r3
+    let as := attrs.map (mapAttr a r3.m)
+    if keptItem prune tag xm as items then (r3.m, .node id key true xm as items)
+    else (r3.m, .node id key false [] [] [])
+
+def decodeTList (v : Variant) (a : AttrRule) (prune : Bool) (mode : Mode) (level : Nat) :
+    List Tree → Mapper → Mapper × List Item
+  | [], m => (m, [])
+  | t :: ts, m =>
+    let (m1, i1) := decodeT v a prune mode level t m
+    let (m2, i2) := decodeTList v a prune mode level ts m1
+    (m2, i1 :: i2)
+end
+
+/-- What the encoder makes of one item: the namespaces in force after its `set_xmlns_context`, the expanded
+    name under which it is encoded and the expanded names of its attributes. -/
+structure EncObs where
+  id : Nat
+  level : Nat
+  ns : Map
+  rev : Map
+  tag : Unmapped
+  attrs : List Unmapped
+  deriving Repr
+
+/-- `name_table` argument of `unmap_qname` for attribute keys (`xsd_element.attributes`): only a bare local
+    name is ever looked up (`tab id l` = "the type of element `id` declares the unqualified attribute `l`"). -/
+def attrInTable (tab : Nat → String → Bool) (id : Nat) : PName → Bool
+  | .loc l => tab id l
+  | _ => false
+
+mutual
+/-- `element_encode` (converters/base.py:422-494; the same pattern in unordered.py, badgerfish.py, gdata.py,
+    jsonml.py) driven by validators/elements.py:978 / groups.py raw_encode: a mapping item sets its xmlns
+    context (an item that is not a mapping returns before doing so, base.py:440-446), resolves its attribute
+    keys with the element's attribute table and the keys of ALL its children with the children's own xmlns as
+    override; then the children are encoded one level deeper.  `tag` was resolved by the parent. -/
+def encVisit (v : Variant) (mode : Mode) (tab : Nat → String → Bool) (level : Nat) (tag : Unmapped) :
+    Item → Mapper → Mapper × List EncObs
+  | .node id _ isMap xmlns attrs children, m =>
+    if isMap then
+      let r := setContext v mode m id level xmlns
+      let as := attrs.map fun k => unmapQName r.m.ns [] (attrInTable tab id k) k
+      let (m2, obs) := encVisitList v mode tab (level + 1) r.m.ns children r.m
+      (m2, { id, level, ns := r.m.ns, rev := r.m.rev, tag, attrs := as } :: obs)
+    else (m, [{ id, level, ns := m.ns, rev := m.rev, tag, attrs := [] }])
+
+def encVisitList (v : Variant) (mode : Mode) (tab : Nat → String → Bool) (level : Nat) (pns : Map) :
+    List Item → Mapper → Mapper × List EncObs
+  | [], m => (m, [])
+  | c :: cs, m =>
+    let (m1, o1) := encVisit v mode tab level (unmapQName pns (Item.xmlns c) false (Item.key c)) c m
+    let (m2, o2) := encVisitList v mode tab level pns cs m1
+    (m2, o1 ++ o2)
+end
+
+/-- Encoding of a whole data tree with the root preserved: the root's own key is resolved after its context
+    was set (base.py:452-457; jsonml.py:100-102; badgerfish.py:107 resolves it before, with the root's xmlns
+    as override, which is the same map). -/
+def encodeDoc (v : Variant) (mode : Mode) (tab : Nat → String → Bool) (item : Item) (e0 : Mapper) :
+    Mapper × List EncObs :=
+  match item with
+  | .node id key isMap xmlns _ _ =>
+    let ns := if isMap then (setContext v mode e0 id 0 xmlns).m.ns else e0.ns
+    encVisit v mode tab 0 (unmapQName ns [] false key) item e0
 
 end XsVerif.NsMapper
